@@ -51,7 +51,7 @@ ASSUMPTIONS = ['IEEE overflow is outside the property: non-finite output of the 
 TOL_REL = 1e-9
 MODEL_TOKENS = {'l1', 'l1l2', 'l2', 'l2sq', 'ccl1', 'ccl1l2', 'ccl2sq', 'box', 'const', 'izero', 'linf',
                 'cclinf', 'simplex', 'sumc', 'huber', 'huberg', 'klcc', 'trans', 'argscale', 'lscale', 'quad',
-                'conj', 'sep', 'nil'}
+                'conj', 'sep', 'nil', 'comp'}
 
 
 # ---------------------------------------------------------------------------
@@ -76,6 +76,10 @@ def space_zoo():
         'rn2^3': odl.ProductSpace(odl.rn(2), 3),
         'discr4^2_cell0.25': odl.ProductSpace(ud4, 2),
         'discr3^2_cell2': odl.ProductSpace(odl.uniform_discr(0, 6, 3), 2),
+        # power spaces with their own (constant / array) product weighting
+        'rn2^2_pwconst3': odl.ProductSpace(odl.rn(2), 2, weighting=3.0),
+        'rn2^2_pwarr': odl.ProductSpace(odl.rn(2), 2, weighting=[1.0, 4.0]),
+        'discr4^2_pwconst0.5': odl.ProductSpace(ud4, 2, weighting=0.5),
         'rn2xrn3_wconst2': odl.ProductSpace(odl.rn(2), odl.rn(3, weighting=2.0)),
         '(rn3^2)^2': odl.ProductSpace(odl.ProductSpace(r3, 2), 2),
         '(discr4^2)^3_cell0.25': odl.ProductSpace(odl.ProductSpace(ud4, 2), 3),
@@ -87,7 +91,8 @@ def space_zoo():
 FLAT = ['rn1', 'rn2', 'rn3', 'rn4', 'rn8', 'rn4_wconst2', 'rn3_wconst0.5', 'rn3_warr', 'rn4_warr',
         'discr4_cell0.25', 'discr3_cell2', 'discr5_cell0.2', 'discr2x3_cell0.5']
 FLAT_EXACT = [k for k in FLAT if k != 'discr5_cell0.2']
-POWER = ['rn3^2', 'rn2^3', 'discr4^2_cell0.25', 'discr3^2_cell2']
+POWER_W = ['rn2^2_pwconst3', 'rn2^2_pwarr', 'discr4^2_pwconst0.5']
+POWER = ['rn3^2', 'rn2^3', 'discr4^2_cell0.25', 'discr3^2_cell2'] + POWER_W
 PRODUCT = POWER + ['rn2xrn3_wconst2']
 MATRIX = ['(rn3^2)^2', '(discr4^2)^3_cell0.25', '(rn2^3)^2']
 
@@ -154,7 +159,9 @@ def weights(key):
 
 class Case(object):
     def __init__(self, label, skey, factory, feval, tree, indicator=False, vec_sigma=False,
-                 list_sigma=0, moreau=None, exact=None, leaves=(), fobj=None, restricted=False):
+                 list_sigma=0, moreau=None, exact=None, leaves=(), fobj=None, restricted=False,
+                 has_box=False):
+        self.has_box = has_box          # evaluation composed in the harness from the leaf's own eval
         self.restricted = restricted    # effective domain smaller than the space (not indicator)
         self.label, self.skey, self.space = label, skey, zoo()[skey]
         self.factory = factory          # real code: sigma -> proximal operator
@@ -199,6 +206,14 @@ def const_weight(sp):
             return 1.0
         return float(const) * const_weight(sp[0])
     return 1.0 if const is None else float(const)
+
+
+def pw_of(sp):
+    """Per-component weights of a power space as PointwiseNorm reads them."""
+    wt = sp.weighting
+    if hasattr(wt, 'array'):
+        return [float(v) for v in wt.array]
+    return [float(wt.const)] * len(sp)
 
 
 def has_array_weights(sp):
@@ -317,19 +332,19 @@ def build(spec):
         elif kind == 'Huber':
             f = S.Huber(sp, args[0])
             lab = 'Huber' + ('(product space)' if is_pspace(sp) else '')
-            tree = (['huberg', str(len(sp)), fs(float(args[0]))] if is_pspace(sp) else
+            tree = (['huberg', fl(pw_of(sp)), str(len(sp)), fs(float(args[0]))] if is_pspace(sp) else
                     ['huber', fs(float(args[0]))])
         elif kind == 'GroupL1Norm':
             p = args[0]
             f = S.GroupL1Norm(sp, p)
             lab = 'GroupL1Norm({})'.format(p)
-            tree = ['l1', '1', '~'] if p == 1 else ['l1l2', str(len(sp)), '1', '~']
+            tree = ['l1', '1', '~'] if p == 1 else ['l1l2', fl(pw_of(sp)), str(len(sp)), '1', '~']
         elif kind == 'IndicatorGroupL1UnitBall':
             p = args[0]
             f = S.IndicatorGroupL1UnitBall(sp, np.inf if p == 'inf' else p)
             lab = 'IndicatorGroupL1UnitBall({})'.format(p)
             tree = (['ccl1', fs(lam_f(1)), '~'] if p == 'inf' else
-                    ['ccl1l2', str(len(sp)), fs(lam_f(1)), '~'])
+                    ['ccl1l2', fl(pw_of(sp)), str(len(sp)), fs(lam_f(1)), '~'])
             ind = True
         elif kind == 'NuclearNorm':
             q = args[0]
@@ -352,7 +367,7 @@ def build(spec):
         else:
             case_feval = fn(f)
         return Case(lab, skey, lambda sg: f.proximal(sg), case_feval, tree, indicator=ind,
-                    vec_sigma=vec, exact=exact, leaves=(lab,), fobj=f,
+                    vec_sigma=vec, exact=exact, leaves=(lab,), fobj=f, has_box=own_eval is not None,
                     restricted=kind in ('KullbackLeibler', 'KullbackLeiblerConvexConj',
                                         'KullbackLeiblerCrossEntropy'))
 
@@ -383,7 +398,7 @@ def build(spec):
         elif kind == 'proximal_l1_l2':
             base = S.GroupL1Norm(sp, 2)
             fe = lambda z: lam * base(z - gg)  # noqa
-            tree = ['l1l2', d, fs(lam), tl(g)]
+            tree = ['l1l2', fl(pw_of(sp)), d, fs(lam), tl(g)]
         elif kind == 'proximal_convex_conj_l1':
             base = S.IndicatorLpUnitBall(sp, np.inf)
             fe = lambda z: base(z / lam) + z.inner(gg)  # noqa
@@ -399,7 +414,7 @@ def build(spec):
         elif kind == 'proximal_convex_conj_l1_l2':
             base = S.IndicatorGroupL1UnitBall(sp, 2)
             fe = lambda z: base(z / lam) + z.inner(gg)  # noqa
-            tree = ['ccl1l2', d, fs(lam_f(lam)), tl(g)]
+            tree = ['ccl1l2', fl(pw_of(sp)), d, fs(lam_f(lam)), tl(g)]
         elif kind == 'proximal_convex_conj_kl':
             base = S.KullbackLeiblerConvexConj(sp, ge)
             fe = lambda z: lam * base(z / lam)  # noqa
@@ -422,31 +437,51 @@ def build(spec):
         y, sub = spec[1], build(spec[2])
         f = sub.fobj.translated(unflat(sub.space, y))
         tree = None if sub.tree is None else ['trans', fl(y)] + sub.tree
-        return Case('trans[' + sub.label + ']', sub.skey, lambda sg: f.proximal(sg), fn(f), tree,
-                    indicator=sub.indicator, restricted=sub.restricted,
-                    leaves=sub.leaves + ('trans',), fobj=f)
+        ye = unflat(sub.space, y)
+        fe = (lambda z: sub.feval(z - ye)) if sub.has_box else fn(f)
+        return Case('trans[' + sub.label + ']', sub.skey, lambda sg: f.proximal(sg), fe, tree,
+                    indicator=sub.indicator, restricted=sub.restricted, exact=sub.exact,
+                    has_box=sub.has_box, leaves=sub.leaves + ('trans',), fobj=f)
     if kind == 'rscale':
         s, sub = spec[1], build(spec[2])
         f = sub.fobj * s
         # Functional.__mul__: a linear functional times a scalar is a LEFT scalar multiplication
         tree = None if sub.tree is None else \
             [('lscale' if sub.fobj.is_linear else 'argscale'), fs(float(s))] + sub.tree
-        return Case('rscale[' + sub.label + ']', sub.skey, lambda sg: f.proximal(sg), fn(f), tree,
-                    indicator=sub.indicator, restricted=sub.restricted,
-                    leaves=sub.leaves + ('rscale',), fobj=f)
+        fe = (lambda z: sub.feval(s * z)) if sub.has_box else fn(f)
+        ex = None
+        if sub.exact is not None and pow2(abs(s)) and not sub.fobj.is_linear:
+            ex = lambda sg: np.isscalar(sg) and sub.exact(sg * s * s)  # noqa
+        return Case('rscale[' + sub.label + ']', sub.skey, lambda sg: f.proximal(sg), fe, tree,
+                    indicator=sub.indicator, restricted=sub.restricted, exact=ex,
+                    has_box=sub.has_box, leaves=sub.leaves + ('rscale',), fobj=f)
+    if kind == 'rscale0':
+        # FunctionalRightScalarMult(f, 0) built directly (f * 0 is folded into a constant by
+        # Functional.__mul__): proximal_arg_scaling's `scaling == 0` guard -> identity
+        from odl.solvers.functional.functional import FunctionalRightScalarMult
+        sub = build(spec[1])
+        f = FunctionalRightScalarMult(sub.fobj, 0)
+        tree = None if sub.tree is None else ['argscale', '0'] + sub.tree
+        return Case('rscale0[' + sub.label + ']', sub.skey, lambda sg: f.proximal(sg), fn(f), tree,
+                    exact=lambda sg: True, leaves=sub.leaves + ('rscale0',), fobj=f)
     if kind == 'lscale':
         s, sub = spec[1], build(spec[2])
         f = s * sub.fobj
         tree = None if sub.tree is None else ['lscale', fs(float(s))] + sub.tree
-        return Case('lscale[' + sub.label + ']', sub.skey, lambda sg: f.proximal(sg), fn(f), tree,
-                    indicator=sub.indicator, vec_sigma=False, restricted=sub.restricted,
-                    leaves=sub.leaves + ('lscale',), fobj=f)
+        fe = (lambda z: s * sub.feval(z)) if sub.has_box else fn(f)
+        ex = None
+        if sub.exact is not None and s > 0 and pow2(s):
+            ex = lambda sg: np.isscalar(sg) and sub.exact(sg * s)  # noqa
+        return Case('lscale[' + sub.label + ']', sub.skey, lambda sg: f.proximal(sg), fe, tree,
+                    indicator=sub.indicator, vec_sigma=False, restricted=sub.restricted, exact=ex,
+                    has_box=sub.has_box, leaves=sub.leaves + ('lscale',), fobj=f)
     if kind == 'ssum':
         c, sub = spec[1], build(spec[2])
         f = sub.fobj + c
-        return Case('ssum[' + sub.label + ']', sub.skey, lambda sg: f.proximal(sg), fn(f), sub.tree,
-                    indicator=sub.indicator, restricted=sub.restricted,
-                    leaves=sub.leaves + ('ssum',), fobj=f)
+        fe = (lambda z: sub.feval(z) + c) if sub.has_box else fn(f)
+        return Case('ssum[' + sub.label + ']', sub.skey, lambda sg: f.proximal(sg), fe, sub.tree,
+                    indicator=sub.indicator, restricted=sub.restricted, exact=sub.exact,
+                    has_box=sub.has_box, leaves=sub.leaves + ('ssum',), fobj=f)
     if kind == 'quad':
         a, u, c, sub = spec[1], spec[2], spec[3], build(spec[4])
         f = FunctionalQuadraticPerturb(sub.fobj, quadratic_coeff=a,
@@ -455,9 +490,11 @@ def build(spec):
         # FunctionalQuadraticPerturb always passes u (zero element when linear_term is None)
         uu = u if u is not None else [0.0] * fsize(sub.space)
         tree = None if sub.tree is None else ['quad', fs(float(a)), fl(uu)] + sub.tree
-        return Case('quad[' + sub.label + ']', sub.skey, lambda sg: f.proximal(sg), fn(f), tree,
+        ue = unflat(sub.space, uu)
+        fe = (lambda z: sub.feval(z) + a * z.inner(z) + z.inner(ue) + c) if sub.has_box else fn(f)
+        return Case('quad[' + sub.label + ']', sub.skey, lambda sg: f.proximal(sg), fe, tree,
                     indicator=False, restricted=sub.restricted or sub.indicator,
-                    leaves=sub.leaves + ('quad',), fobj=f)
+                    has_box=sub.has_box, leaves=sub.leaves + ('quad',), fobj=f)
     if kind == 'bregman':
         pt, sg_, sub = spec[1], spec[2], build(spec[3])
         f = sub.fobj.bregman(unflat(sub.space, pt), unflat(sub.space, sg_))
@@ -478,8 +515,9 @@ def build(spec):
         L = odl.MatrixOperator(mat, domain=sub.space, range=sub.space)
         f = sub.fobj * L
         factory = PO.proximal_composition(sub.fobj.proximal, L, mu)
+        tree = None if sub.tree is None else ['comp', fs(float(mu)), core.fmat(mat.tolist())] + sub.tree
         return Case('proximal_composition[' + sub.label + ']', sub.skey, lambda sg: factory(sg),
-                    fn(f), None, indicator=sub.indicator, restricted=sub.restricted,
+                    fn(f), tree, indicator=sub.indicator, restricted=sub.restricted,
                     leaves=sub.leaves + ('proximal_composition',), fobj=f)
     if kind == 'sep':
         subs = [build(s) for s in spec[1]]
@@ -537,7 +575,7 @@ def leaf_specs(rng, quick):
                      rng.choice(FLAT)]
         flat_keys = sorted(set(flat_keys))
         power_keys = [rng.choice(['rn3^2', 'rn2^3']),
-                      rng.choice(['discr4^2_cell0.25', 'discr3^2_cell2'])]
+                      rng.choice(['discr4^2_cell0.25', 'discr3^2_cell2'])] + POWER_W
         product_keys = [rng.choice(POWER), 'rn2xrn3_wconst2']
         matrix_keys = rng.sample(MATRIX, 2)
     for k in flat_keys:
@@ -571,6 +609,12 @@ def leaf_specs(rng, quick):
             out += [[fac, k, lam, None], [fac, k, lam, v(n)], [fac, k, 1.0, v(n)]]
         for fac in ('proximal_convex_conj_kl', 'proximal_convex_conj_kl_cross_entropy'):
             out += [[fac, k, lam, None], [fac, k, lam, pvec(rng, n, ex)]]
+        # every derived class at least once per space and run (not only by chance in the trees)
+        out += [['bregman', dvec(rng, n, 1, 16), dvec(rng, n, -4, 4), ['L1Norm', k]],
+                ['bregman', dvec(rng, n, 1, 16), dvec(rng, n, -4, 4), ['L2NormSquared', k]],
+                ['rscale0', ['L1Norm', k]], ['rscale0', ['Huber', k, 0.5]],
+                ['dconj', ['L2NormSquared', k]], ['ssum', 1.5, ['L1Norm', k]],
+                ['Huber', k, 0.0]]
     # proximal_composition with scaled orthogonal matrices on unweighted rn
     mats = {'rn2': [([[0.0, 2.0], [-2.0, 0.0]], 4.0), ([[0.6, 0.8], [-0.8, 0.6]], 1.0)],
             'rn3': [([[0.0, 0.5, 0.0], [0.0, 0.0, 0.5], [0.5, 0.0, 0.0]], 0.25),
@@ -658,7 +702,8 @@ FINITE_LEAVES = ('L1Norm', 'L2Norm', 'L2NormSquared', 'LpNorm', 'Huber', 'ZeroFu
 
 
 def leaf_of(spec):
-    while spec[0] in ('trans', 'rscale', 'lscale', 'ssum', 'quad', 'bregman', 'dconj', 'comp'):
+    while spec[0] in ('trans', 'rscale', 'rscale0', 'lscale', 'ssum', 'quad', 'bregman', 'dconj',
+                      'comp'):
         spec = spec[-1]
     return spec
 
@@ -697,11 +742,39 @@ def random_tree(rng, k, depth, top=True):
     return ['bregman', dvec(rng, n, 1, 16), dvec(rng, n, -4, 4), sub]
 
 
+def power_leaf(rng, k):
+    name = rng.choice(['GroupL1Norm', 'IndicatorGroupL1UnitBall', 'Huber', 'L2NormSquared', 'L1Norm'])
+    if name in ('GroupL1Norm', 'IndicatorGroupL1UnitBall'):
+        return [name, k, 2]
+    if name == 'Huber':
+        return [name, k, rng.choice([0.5, 1.0])]
+    return [name, k]
+
+
+def power_tree(rng, k, depth):
+    """Calculus nodes over a vector-field leaf on a (possibly weighted) power space."""
+    n = fsize(zoo()[k])
+    sub = power_leaf(rng, k) if depth == 0 else power_tree(rng, k, depth - 1)
+    if depth == 0:
+        return sub
+    r = rng.random()
+    if r < 0.3:
+        return ['trans', dvec(rng, n, -16, 16), sub]
+    if r < 0.55:
+        return ['rscale', rng.choice([2.0, -2.0, 0.5, 1.5]), sub]
+    if r < 0.75:
+        return ['lscale', rng.choice([2.0, 0.5, 3.0]), sub]
+    return ['quad', rng.choice([0.0, 1.5, 0.3]), rng.choice([None, dvec(rng, n, -8, 8)]), 0, sub]
+
+
 def tree_specs(rng, count):
     out = []
     for _ in range(count):
         k = rng.choice(FLAT_EXACT)
         depth = rng.choice([1, 1, 2, 2, 3])
+        if rng.random() < 0.12:
+            out.append(power_tree(rng, rng.choice(POWER), rng.choice([1, 2])))
+            continue
         if rng.random() < 0.25:
             ks = [rng.choice(['rn2', 'rn3', 'rn3_warr', 'discr4_cell0.25', 'rn4_wconst2'])
                   for _ in range(rng.choice([2, 2, 3]))]
@@ -1206,7 +1279,8 @@ def run(ctx, deep=False):
     seen_labels = set()
     for case, sk, sg, xc, xlist in iterate_cases(ctx, specs, deep=deep):
         crng = _random.Random(rng.getrandbits(32))
-        probs, info = check_case(case, sg, xlist, crng, deep=2 if deep else (0 if ctx.quick else 1))
+        lvl = 2 if deep else (0 if (ctx.quick and case.tree is not None) else 1)
+        probs, info = check_case(case, sg, xlist, crng, deep=lvl)
         rec = (case, sk, sg, xc, xlist, info, probs)
         seen_labels.add(case.label)
         sig = (case.label, case.skey, sk, xc) if info['nontrivial'] else None
@@ -1250,9 +1324,71 @@ def run(ctx, deep=False):
         if ' resid=0 ' not in ans:
             ctx.disagree(rec_desc(rec), 'threshold feasible (sum = diameter)', ans[:200],
                          stream='simplex-feasibility')
+    run_malformed(ctx)
     ctx.extra['functional_labels_exercised'] = len(seen_labels)
     ctx.extra['unhit_model_branches'] = sorted(t for t in MODEL_TOKENS
                                                if ('model/' + t) not in ctx.branches)
+
+
+def malformed_specs(rng):
+    """Inadmissible parameters / step kinds: the code must raise (or take its documented guard)
+    exactly where the model says so.  Outside the property's quantifier: compared, not judged."""
+    out = []
+    for k in ('rn2', 'rn3_wconst0.5', 'discr4_cell0.25'):
+        n = fsize(zoo()[k])
+        out += [(['lscale', -2.0, ['L1Norm', k]], 'float'),
+                (['lscale', -0.5, ['trans', dvec(rng, n), ['L2NormSquared', k]]], 'float'),
+                (['quad', -1.0, None, 0, ['L1Norm', k]], 'float'),
+                (['quad', -0.25, dvec(rng, n), 0, ['Huber', k, 0.5]], 'float'),
+                (['trans', dvec(rng, n), ['lscale', -3.0, ['L2Norm', k]]], 'float'),
+                (['sep', [['L1Norm', k], ['quad', -1.0, None, 0, ['L1Norm', k]]]], 'float'),
+                # a point-wise step for proximals that take a float only
+                (['Huber', k, 0.5], 'pointwise'), (['L2Norm', k], 'pointwise'),
+                (['KullbackLeiblerConvexConj', k, None], 'pointwise'),
+                (['trans', dvec(rng, n), ['L1Norm', k]], 'pointwise')]
+    return out
+
+
+def run_malformed(ctx):
+    rng = ctx.rng
+    recs, lines = [], []
+    for spec, sk in malformed_specs(rng):
+        try:
+            case = build(spec)
+        except Exception as e:  # noqa
+            ctx.err('build:' + type(e).__name__)
+            continue
+        case.spec = spec
+        n = fsize(case.space)
+        sg = rng.choice([0.5, 1.0, 2.0]) if sk == 'float' else pvec(rng, n, True)
+        xlist = dvec(rng, n)
+        try:
+            p = case.factory(sigma_obj(case, sg))(unflat(case.space, xlist))
+            status, pf = 'ok', flat(p)
+        except Exception as e:  # noqa
+            status, pf = 'err:' + type(e).__name__, None
+        line = model_line(case, sg, xlist)
+        ctx.case(None)
+        ctx.hit('malformed/' + status.split(':')[-1])
+        if line is not None:
+            recs.append((case, sk, sg, xlist, status, pf))
+            lines.append(line)
+    outs = core.run_driver('C07', lines)
+    for (case, sk, sg, xlist, status, pf), ans in zip(recs, outs):
+        desc = {'spec': case.spec, 'label': case.label, 'space': case.skey, 'sigma_kind': sk,
+                'sigma': sg, 'x_class': 'malformed', 'x': xlist}
+        if ans == 'unsupported':
+            ctx.hit('model/unsupported')
+            if status == 'ok':
+                # the real code accepts more step kinds than the model covers: not a disagreement
+                ctx.hit('model/unsupported(real code ok: outside the model)')
+        elif ans.startswith('err:'):
+            ctx.hit('model/' + ans)
+            if status != ans:
+                ctx.disagree(desc, status, ans, stream='malformed')
+        else:
+            if status != 'ok':
+                ctx.disagree(desc, status, ans[:100], stream='malformed')
 
 
 def search(ctx, broken):
